@@ -253,6 +253,7 @@ pub enum Outcome {
     Dropped,
     /// `Some(Err(_))`: connection error
     ConnError(String),
+    #[allow(dead_code)]
     ParseErr(String),
     /// Retry / Version Negotiation: carries no frames
     NoFrames,
@@ -1302,7 +1303,9 @@ pub fn run(args: &Args, rep: &mut Report) {
                 distinct = distinct (type, DCID len, SCID len, token len, pn width, body len, cipher suite, key phase, #updates, writer) shapes; \
                 non-trivial = the packet round-tripped bit-exactly, its wire image was opened by the independent opener and a bit-flip campaign ran on it"
         .into();
-    let strict = args.flag("strict-reserved");
+    // a modified (hence unauthenticated) packet must be discarded, not turned into a connection error
+    // (RFC 9000 §17.2: reserved bits are checked after removing packet protection); --lenient-reserved only counts
+    let strict = !args.flag("lenient-reserved");
     if let Some(path) = args.get("replay") {
         let v: Value = serde_json::from_str(&std::fs::read_to_string(path).unwrap()).unwrap();
         let v = if v.get("replay").is_some() { v["replay"].clone() } else { v };
